@@ -25,6 +25,8 @@ cmp -s "$ROOT/build/gen/Decisions_gen.v" "$ROOT/coq/Gen/Decisions_gen.v" || cp "
 cmp -s "$ROOT/build/gen/Windcount_gen.v" "$ROOT/coq/Gen/Windcount_gen.v" || cp "$ROOT/build/gen/Windcount_gen.v" "$ROOT/coq/Gen/Windcount_gen.v"
 "$ROOT/build/vh" pure -out "$ROOT/build/gen/pure" "$ROOT/build/gen/RectLeaf_gen.v" >/dev/null || exit 1
 cmp -s "$ROOT/build/gen/RectLeaf_gen.v" "$ROOT/coq/Gen/RectLeaf_gen.v" || cp "$ROOT/build/gen/RectLeaf_gen.v" "$ROOT/coq/Gen/RectLeaf_gen.v"
+"$ROOT/build/vh" newpoly -out "$ROOT/build/gen/newpoly" "$ROOT/build/gen/NewPoly_gen.v" >/dev/null || exit 1
+cmp -s "$ROOT/build/gen/NewPoly_gen.v" "$ROOT/coq/Gen/NewPoly_gen.v" || cp "$ROOT/build/gen/NewPoly_gen.v" "$ROOT/coq/Gen/NewPoly_gen.v"
 cd "$ROOT/coq"
 if [ ! -f Makefile ] || [ _CoqProject -nt Makefile ]; then
   coq_makefile -f _CoqProject -o Makefile >/dev/null
